@@ -65,37 +65,55 @@ def translate(ctx):
             ("production begin_atomic / end_atomic / yield_from_tick emit `out = in` (same DFIR tick)", ident, str(ident))]
 
 
+_common = dict(lean_project="HvHydro2", driver="hvdrv_hydro2")
 SPEC = dict(
     id="C34",
-    lean_project="HvHydro2", props_module="HvHydro2.Props.C34", driver="hvdrv_hydro2",
-    harness="hv_hydro2", bin="hv_hydro2", mode="c34",
-    cases={"quick": 600, "thorough": 12000},
-    translate=translate,
+    parts=[
+        dict(_common, props_module="HvHydro2.Props.C34", harness="hv_hydro2", bin="hv_hydro2", mode="c34",
+             cases={"quick": 600, "thorough": 12000}, translate=translate),
+        # simulator tie: the summing register compiled with the simulator backend, every schedule (exhaustive)
+        dict(_common, harness="hv_hydro2_sim", bin="hv_hydro2_sim", mode="c34sim",
+             cases={"quick": 12, "thorough": 40}),
+    ],
+    harness_timeout=7200,
     level="proof",
     design_ref="DESIGN.md §5 C34",
-    technique="Lean 4 proofs over a model of an atomic region with explicit batch decisions + pinned API/lowering text (T) + production-generated atomic write/ack/read programs under random tick partitions (C)",
-    level_text=("Partial (two corpus shapes; production only, no simulator schedules). Theorems, for every schedule of "
-                "the atomic region (how many buffered writes each run takes): ack_implies_visible — the state an atomic "
-                "snapshot reads in tick t is the fold of exactly the writes acknowledged in ticks 0..t; "
+    technique="Lean 4 proofs over a model of an atomic region with explicit batch decisions + pinned API/lowering text (T) + production-generated atomic write/ack/read programs under random tick partitions (C, part 1) + the summing register compiled with the simulator backend and run under CompiledSim::exhaustive with scripted write / await-ack / read scenarios, every explored execution judged by the property oracle and by the model's admissibility predicate (C, part 2)",
+    level_text=("Partial (two corpus shapes; the simulator part covers the summing register only). Theorems, for every "
+                "schedule of the atomic region (how many buffered writes each run takes): ack_implies_visible — the state an "
+                "atomic snapshot reads in tick t is the fold of exactly the writes acknowledged in ticks 0..t; "
+                "atomic_snapshot_reads_acked_prefix — that set is a prefix of all writes in order (so a read value is the fold "
+                "of a prefix of the writes containing every acknowledged one: the shape simAtomicOk accepts); "
                 "later_snapshot_extends_earlier — a later atomic snapshot is an earlier one with the writes acknowledged "
                 "in between folded in; acks_partition_writes — acknowledgements are the writes, each once, in order; "
                 "keyed_counter_read_after_write — for the tutorial's per-key counter a get sees exactly the increments of "
                 "its key acknowledged so far, hence at least those acknowledged at any earlier tick; "
-                "prod_atomic_acks_same_tick; nonatomic_snapshot_can_miss_ack (contrast: an ordinary snapshot hook may re-release an older version). T: the text of atomic / batch_atomic / end_atomic / snapshot_atomic, "
+                "prod_atomic_acks_same_tick; nonatomic_snapshot_can_miss_ack (contrast: an ordinary snapshot hook may "
+                "re-release an older version). T: the text of atomic / batch_atomic / end_atomic / snapshot_atomic, "
                 "batch_atomic.rs and ProdDfirBuilder::{begin_atomic,end_atomic,batch,yield_from_tick} is pinned and the "
-                "`out = in` lowering re-read each run. C: the summing register of location/tick.rs's test and an "
-                "integer-keyed copy of hydro_test::tutorials::keyed_counter (plus a non-atomic contrast program) are "
+                "`out = in` lowering re-read each run. C part 1 (production): the summing register of location/tick.rs's test "
+                "and an integer-keyed copy of hydro_test::tutorials::keyed_counter (plus a non-atomic contrast program) are "
                 "compiled through generate_embedded, run on fresh instances under random tick partitions of writes and "
                 "reads, per-tick acks and read responses diffed against the compiled model; oracle on the real code: "
                 "every response in tick t reflects all writes acknowledged in ticks < t, never a write not yet fed, and "
-                "the acks are exactly the writes."),
-    level_note=("Modelled, not verified: that all operators of an atomic region and the atomic snapshot run in one tick "
-                "(SimBuilder begin_atomic/end_atomic and the simulator's scheduling are not exercised; in production every "
-                "location collapses onto one DFIR graph and the lowering is `out = in`). In production a stale-by-one-tick "
+                "the acks are exactly the writes. C part 2 (simulator): the summing register built on sim_input/sim_output "
+                "and compiled with flow.sim().compiled() (SimBuilder begin_atomic / end_atomic / batch and the atomic snapshot "
+                "hook) is run under CompiledSim::exhaustive with scripted test bodies (send writes / await an "
+                "acknowledgement / send reads / await a response; 5 fixed scripts incl. those of the library's own test + "
+                "seeded random ones, <= 3 writes, <= 2 reads); for EVERY explored execution the observed timeline is judged on "
+                "the real observations: a response is the sum of a prefix of the writes that contains every write whose "
+                "acknowledgement the test body had observed BEFORE it issued the read (acknowledged => visible to every "
+                "later atomic snapshot), consecutive awaited responses never go back, and the acknowledgements are exactly "
+                "the writes in order; the Lean driver judges the same timeline with simAtomicOk."),
+    level_note=("Modelled, not verified: that all operators of an atomic region and the atomic snapshot run in one tick is "
+                "the model's construction; it is tied by the production corpus (lowering `out = in` on one DFIR graph) and, "
+                "for the summing register only, by the exhaustive simulator runs; the keyed counter (use::atomic of a keyed "
+                "singleton joined with a keyed batch) is not run in the simulator. In production a stale-by-one-tick "
                 "snapshot would not violate the property as stated (ack and read are simultaneous); it is caught by the "
-                "correspondence only."),
+                "correspondence only — in the simulator part it IS a property violation (script: write, await ack, read)."),
     trusted_base=["hand-written model of the atomic region (pinned text, not translated)",
-                  "hydro_lang emit_core lowering of BeginAtomic / EndAtomic / Batch / fold / join_keyed_singleton for the 3 corpus flows: exercised and diffed"],
+                  "hydro_lang emit_core lowering of BeginAtomic / EndAtomic / Batch / fold / join_keyed_singleton for the 3 corpus flows (production) and the simulator flow: exercised and diffed",
+                  "bolero's exhaustive driver enumerates the simulator's decision space (C37)"],
     assumptions=["production code generation (one DFIR tick runs the atomic region and the slices that read it)",
-                 "writes of the summing register are non-negative in generated cases (so 'reflects' is >=)"],
+                 "writes of the summing register are positive in generated cases (so 'reflects' is >= and prefix sums identify the prefix)"],
 )
